@@ -13,11 +13,13 @@ import (
 	"io"
 	"net"
 	"os"
+	"strings"
 	"sync"
 	"sync/atomic"
 	"testing"
 	"time"
 
+	"github.com/miekg/dns"
 	"github.com/semihalev/sdns/internal/vfstat"
 	"pgregory.net/rapid"
 )
@@ -101,6 +103,7 @@ func vfC11StreamsRun(t *testing.T, dir string, conns []vfC11Conn) (violation str
 			if err != nil {
 				return
 			}
+			sentAt := time.Now()
 			if cs.End == "fin" {
 				if tc, ok := c.(*net.TCPConn); ok {
 					_ = tc.CloseWrite()
@@ -130,6 +133,10 @@ func vfC11StreamsRun(t *testing.T, dir string, conns []vfC11Conn) (violation str
 				id, bad := vfC10Check(who, body, want)
 				if bad != "" {
 					report("%s", bad)
+					return
+				}
+				if body[3]&0x0f == dns.RcodeServerFailure && !strings.HasPrefix(want[id], "panic") {
+					report("%s: query id %d (%s) was answered SERVFAIL %s after the burst was sent; its authority answers every question within 2 s and the query timeout is %s - it was charged for the time the queries ahead of it took", who, id, want[id], time.Since(sentAt).Round(10*time.Millisecond), cfg.QueryTimeout.Duration)
 					return
 				}
 				got[id]++
@@ -173,6 +180,12 @@ func TestVerifC11Streams(t *testing.T) {
 			}
 			conns = append(conns, cs)
 		}
+		held := rapid.IntRange(0, 2).Draw(rt, "heldburst") > 0
+		if held {
+			// a pipelined burst of questions that each take a large part of - but well less than - one query timeout:
+			// every one of them has its own budget, counted from when the server took it off the stream
+			conns = append(conns, vfC11Conn{NQ: 4, Tail: "none", End: "wait", Kinds: []string{"hold", "hold", "hold", rapid.SampledFrom([]string{"hit", "miss"}).Draw(rt, "heldlast")}})
+		}
 		v, stats := vfC11StreamsRun(t, dir, conns)
 		if v != "" {
 			rt.Fatalf("%s\n  connections: %+v", v, conns)
@@ -189,6 +202,9 @@ func TestVerifC11Streams(t *testing.T) {
 		}
 		if stall {
 			vfstat.Class(U, "stalled-mid-frame")
+		}
+		if held {
+			vfstat.Class(U, "slow-questions-pipelined")
 		}
 		if stats["answered"] > 0 && stats["connections-with-partial-tail"] > 0 {
 			vfstat.NonTrivial(U, fmt.Sprintf("%+v", conns))
